@@ -364,6 +364,20 @@ func runReopenCase(c reopenCase) ([]Deviation, error) {
 	}
 	// second process: the wall clock is far behind
 	p2 := &ChildPlan{Dir: dir, Name: name, Config: cfg, Existing: true, Steps: mk(c.Writes2, "q", left), Clock: &ClockPlan{BaseNs: uint64(int64(base) - c.Back), Offsets: []int64{0, 0, 3, -1000000, 0}}}
+	// what the first process left on disk counts as handed out, acknowledged or not (a write killed
+	// after its commit is there to be read): the second process reads those keys before it writes
+	if c.Tail != "drop" {
+		seenKey := map[[2]string]bool{}
+		for _, op := range steps1 {
+			if op.Key != "" && op.K != "SetWithMeta" && op.C < len(left) {
+				ck := [2]string{fmt.Sprint(op.C), op.Key}
+				if !seenKey[ck] {
+					seenKey[ck] = true
+					p2.ScanKeys = append(p2.ScanKeys, ck)
+				}
+			}
+		}
+	}
 	// the interrupted call of the first process may or may not have been applied: let the second
 	// process start from what it finds (Set / SetXattrs / Delete need no symbolic CAS)
 	_ = model
@@ -374,6 +388,16 @@ func runReopenCase(c reopenCase) ([]Deviation, error) {
 	if r2.Ready == nil {
 		bad("reopen.start", "the bucket cannot be reopened by a second process: %s %.400s", r2.ExitErr, r2.Stderr)
 		return devs, nil
+	}
+	acked := map[uint64]bool{}
+	for _, x := range before {
+		acked[x] = true
+	}
+	for _, x := range r2.Ready.Cas {
+		if !acked[x] {
+			acked[x] = true
+			before = append(before, x)
+		}
 	}
 	var after []uint64
 	for _, a := range r2.Acks {
@@ -388,7 +412,7 @@ func runReopenCase(c reopenCase) ([]Deviation, error) {
 	prev := maxBefore
 	for i, x := range after {
 		if x <= maxBefore {
-			bad("reopen.cas", "after reopening with the clock %s behind, write #%d got CAS %#x, not greater than %#x acknowledged before the bucket was closed/killed (%d writes before)", time.Duration(c.Back), i, x, maxBefore, len(before))
+			bad("reopen.cas", "after reopening with the clock %s behind, write #%d got CAS %#x, not greater than %#x acknowledged (or found on disk) before the bucket was closed/killed (%d CAS values before)", time.Duration(c.Back), i, x, maxBefore, len(before))
 			break
 		}
 		if x <= prev && i > 0 {
